@@ -436,10 +436,7 @@ Section Model.
 
   (* `if inner.ends_with(',') { inner.pop(); }` *)
   Definition pop_comma (s : str) : str :=
-    match rev s with
-    | c :: r => if c =? ch_comma then rev r else s
-    | [] => s
-    end.
+    if last s 0 =? ch_comma then removelast s else s.
 
   (* close a container: optional newline + indentation, then the closing bracket *)
   Definition close_with (inner : str) (indent : option (N * N)) (closer : N) : str :=
